@@ -34,7 +34,7 @@ CFG = {
                  "certified boolean oracle on every implementation output",
     "design_ref": "DESIGN.md §3.2, §4 C02, §5 #2",
     "n_quick": 1000, "n_thorough": 10000,
-    "rule": "20 local operations once per run at a vertex count around a power of two (1023..12289; thorough ..65537) with the tail of the vertex array referenced or not; one history in 20 keeps the real mesh values of a branching history (3-7 operations on a base with spare slice capacity) and re-reads every retained value after every later operation; 22 fixed operation cases and 112 fixed generator cases (per-element optional fields set on some elements only; corner counts; every path-driven generator on collinear, one-collinear, repeated-point, closed, backtracking and axis-aligned paths; stencils of 0-3 points; triangulation of repeated, coincident, collinear and lattice point sets); generator cases (at most 260 in the quick tier): "
+    "rule": "20 local operations on a ladder of vertex counts (one rung each at 2^10+1 .. 2^15+1; thorough also 2^16+1, 2^17+1): every operation at BOTH rungs >= 2^14 and one rotating lower rung per run, topologies and call variants (function / Transformer / Mesh method / generic modifier) rotating over the rungs, tail of the vertex array referenced or not; C02 also runs 12 generators (spheres, hemisphere, cylinder, circle, cone, extrusions, repeated quads / cubes) at counts on the same ladder, two per rung, rotating; one history in 20 keeps the real mesh values of a branching history (3-7 operations on a base with spare slice capacity) and re-reads every retained value after every later operation; 22 fixed operation cases and 112 fixed generator cases (per-element optional fields set on some elements only; corner counts; every path-driven generator on collinear, one-collinear, repeated-point, closed, backtracking and axis-aligned paths; stencils of 0-3 points; triangulation of repeated, coincident, collinear and lattice point sets); generator cases (at most 260 in the quick tier): "
             "21 generators (UV sphere welded/unwelded, hemisphere, cube welded/quads, quad, circle, cylinder with/without "
             "caps and UVs, cone, extrude polygon/circle/line/shape/closed shape, repeat circle/line/Fibonacci of 5 base "
             "meshes, marching sphere/box/line through Field.March and the sequential/parallel canvas, Bowyer-Watson), a "
